@@ -1126,7 +1126,7 @@ func (u *Unit) callMods(call *ast.CallExpr, m *modSet) {
 			}
 		}
 		if fc, ok := u.eng.contracts[origin]; ok && !fc.Inline {
-			if fc.Pure {
+			if fc.Pure && len(fc.Spec.Modifies) == 0 {
 				return
 			}
 			if len(fc.Spec.Modifies) == 0 {
